@@ -842,6 +842,11 @@ class StoryMove(MosFile):
             raise MosMergeError(
                 f"{self.__class__.__name__} error in {self.message_id} - no stories given"
             )
+        source_story, source_index = find_child(parent=ro.base_tag, child_tag='story', id=self.source_story.id)
+        if source_story is None:
+            raise MosMergeError(
+                f"{self.__class__.__name__} error in {self.message_id} - source story not found"
+            )
         if self.target_story is None:
             target_story_index = len(ro.base_tag)
         else:
@@ -850,11 +855,9 @@ class StoryMove(MosFile):
                 raise MosMergeError(
                     f"{self.__class__.__name__} error in {self.message_id} - target story not found"
                 )
-        source_story, source_index = find_child(parent=ro.base_tag, child_tag='story', id=self.source_story.id)
-        if source_story is None:
-            raise MosMergeError(
-                f"{self.__class__.__name__} error in {self.message_id} - source story not found"
-            )
+        if source_index < target_story_index:
+            # removing the source shifts everything after it up by one
+            target_story_index -= 1
         remove_node(parent=ro.base_tag, node=source_story)
         insert_node(parent=ro.base_tag, node=source_story, index=target_story_index)
         return ro
